@@ -73,6 +73,14 @@ struct Slot {
 inline const char* envStr(const char* name) { const char* v = getenv(name); return (v && *v) ? v : nullptr; }
 inline int envInt(const char* name, int dflt) { const char* v = envStr(name); return v ? atoi(v) : dflt; }
 
+// a list with the interface transitionList() expects, for histories longer than the library's own arrays
+template <typename T>
+struct ManyT {
+	std::vector<T> v;
+	unsigned count() const { return static_cast<unsigned>(v.size()); }
+	const T& operator[](unsigned i) const { return v[i]; }
+};
+
 struct Runner {
 	Slot slots[4];		// 0,1: the two instances of a scenario; 2,3: their copies ($VH_COPY_AT)
 	int  base = 0;		// 0: operations address the originals, 2: the copies
@@ -783,6 +791,22 @@ struct Runner {
 				const int src = k, dst = 1 - k;
 				const auto& prev = inst(src).previousTransitions();
 				if (prev.count() == 0 || !active(inst(dst))) { --n; if (s.prng.chance(50)) ++n; continue; }
+				if (s.prng.chance(20)) {
+					// an over-long but valid history (C11): the authority's list repeated until it exceeds the capacity
+					// of previousTransitions (COMPO_COUNT x SUBSTITUTION_LIMIT); the library keeps the first `capacity`
+					using Tr = typename std::decay<decltype(prev[0])>::type;
+					ManyT<Tr> many;
+					const unsigned cap = static_cast<unsigned>(FSM::COMPO_COUNT) * static_cast<unsigned>(VH_LIMIT);
+					const unsigned want = cap + 1 + s.prng.below(3);
+					for (unsigned i = 0; many.v.size() < want && many.v.size() < 250; ++i) many.v.push_back(prev[static_cast<hfsm2::Short>(i % prev.count())]);
+					o << "op " << dst << " replay " << transitionList(many) << "\n";
+					enterCall(dst);
+					bool res;
+					{ ApiScope scope; res = inst(dst).replayTransitions(&many.v[0], static_cast<hfsm2::Short>(many.v.size())); }
+					o << "ret " << (res ? 1 : 0) << "\n" << "end\n";
+					snap(dst);
+					continue;
+				}
 				o << "op " << dst << " replay " << transitionList(prev) << "\n";
 				enterCall(dst);
 				bool res;
